@@ -837,6 +837,7 @@ struct GenCfg {
     drain: bool,
     frac_shares_p: f64,
     dup_p: f64,
+    mass_create: bool,
     preset_id_p: f64,
     unknown_symbol_p: f64,
 }
@@ -898,7 +899,7 @@ impl Gen {
         };
         let big = focus == "C17";
         let burst_sizes: &'static [usize] = if thorough {
-            if big { &[3, 8, 21, 33, 64, 65, 200, 1000, 5000] } else { &[3, 8, 21, 33, 64, 65, 200] }
+            if big { &[3, 8, 21, 33, 64, 65, 200, 1000, 5000] } else { &[3, 8, 21, 33, 64, 65, 200, 3, 8, 21, 33, 64, 65, 200, 3, 8, 21, 33, 64, 200, 5000] }
         } else if big {
             &[3, 5, 8, 21, 22, 33, 64, 65, 100]
         } else {
@@ -935,6 +936,7 @@ impl Gen {
             drain: c.chance(0.7),
             frac_shares_p: *c.pick(&[0.0, 0.1]),
             dup_p: *c.pick(&[0.0, 0.2, 0.6]),
+            mass_create: thorough && focus == "C08" && crate::common::long_run(seed, tier) && c.one_in(4),
             preset_id_p: *c.pick(&[0.0, 0.0, 0.1]),
             unknown_symbol_p: *c.pick(&[0.0, 0.03]),
         };
@@ -1039,6 +1041,15 @@ impl Gen {
             return None;
         }
         self.issued += 1;
+        if self.cfg.mass_create && sim.layer == Layer::Server && self.issued == self.cfg.max_ops / 2 {
+            self.cfg.mass_create = false;
+            sim.ctx.bump("probe_mass_creation_of_backtests");
+            for i in 0..1100usize {
+                let dataset = sim.datasets[i % sim.datasets.len()].name.clone();
+                let dataset = if sim.single { sim.datasets[0].name.clone() } else { dataset };
+                self.queue.push_back(Op::Create { client: (i % self.sched.n) as u8, init: sim.path == Path::Json || i % 2 == 0, dataset });
+            }
+        }
         if sim.layer == Layer::Bare {
             return Some(self.next_bare(sim));
         }
@@ -1047,7 +1058,7 @@ impl Gen {
         let mine: Vec<usize> = live.iter().copied().filter(|h| sim.bts[*h].owner == client).collect();
         let want_create = live.is_empty() || (mine.is_empty() && self.rng.chance(0.7)) || (sim.bts.len() < self.cfg.max_bts && self.rng.chance(self.cfg.create_p));
         if want_create {
-            let dataset = if self.rng.chance(0.06) { "nope".to_string() } else { self.rng.pick(sim.datasets).name.clone() };
+            let dataset = if self.rng.chance(0.06) { crate::e1u::unknown_name(&mut self.rng, sim.datasets) } else { self.rng.pick(sim.datasets).name.clone() };
             let dataset = if sim.single && !self.rng.chance(0.06) { sim.datasets[0].name.clone() } else { dataset };
             let init = sim.path == Path::Json || self.rng.one_in(2);
             return Some(Op::Create { client, init, dataset });
@@ -1191,7 +1202,7 @@ impl Engine for E1J {
         }
         let mut st = WorldStats::default();
         let nds = if layer == Layer::Server && !single { w.range(1, 3) as usize } else { 1 };
-        let names = ["fake", "d2", "RANDOM"];
+        let names = ["fake", "Fake", "RANDOM"];
         let datasets: Vec<DatasetSpec> = (0..nds).map(|i| gen_dataset(&mut w, names[i], &cfg, &mut st)).collect();
 
         let mut gen = Gen::new(seed, tier, focus);
